@@ -11,7 +11,10 @@ RULE = ("selector-list texts built from a grammar: element types (plain, namespa
         "modifiers, namespaces, inner whitespace), pseudo-classes/elements (plain, nth-child(2n+1 / 2n + 1 / odd / -n+3), "
         "selector arguments :not/:is/:where/:has/:host/::slotted/-moz-any, non-selector arguments), combinators with "
         "random spacing, leading combinators, keyframe stops, lists of 1..3; plus a malformed stream. "
-        "`rule` cases additionally compile `S { x: y }`. Non-trivial = accepted by the parser and containing an "
+        "`rule` cases additionally compile `S { x: y }` in expanded AND compressed style (the compressed header is "
+        "parsed again and must be the selector list of selector.parse(S)); an attribute matrix (6 operators x modifiers "
+        "i/s/I/none x unquoted, quoted, needs-quotes and becomes-unquoted values x alone, in a compound, in :not/:is/"
+        "::slotted, with combinators, namespaced) checks both styles against each other. Non-trivial = accepted by the parser and containing an "
         "escape, a quote, a pseudo-class argument or a namespace.")
 TRUSTED = ["harness op c25: selector.parse's path (parser::selector_set on the text, `Value::from(SelectorSet)` written as "
            "inspect writes it) reached through the public API css::SelectorSet: TryFrom<css::Value>; cross-checked against "
@@ -165,6 +168,27 @@ FIXED = [
 ]
 
 
+def attr_matrix():
+    """attribute operators x modifiers x value shapes x positions, as rule cases (both styles)"""
+    ops = ["=", "^=", "$=", "*=", "~=", "|="]
+    out = []
+    k = 0
+    for op in ops:
+        for m in ["i", "s", "I", None]:
+            # (text, canonical for the SCSS front end?)
+            for val, canon in (("abc", True), ('"a b"', True), ('"1x"', True), ('""', True), ('"abc"', False), ("'abc'", False),
+                               ("'a b'", False)):
+                mod = "" if m is None else ((" " if not val.startswith(("'", '"')) else ["", " "][k % 2]) + m)
+                a = "[data-x" + op + val + mod + "]"
+                k += 1
+                shapes = [a, "a" + a + ".c", ":not(" + a + ")", "b > " + a + " + c", "a:is(" + a + ", .d)", "[ns|h" + op + val + mod + "]",
+                          a + a, "::slotted(" + a + ")"]
+                out.append((shapes[k % len(shapes)], True if canon else "style"))
+                if op == "=" or m == "i":
+                    out.append((shapes[(k + 3) % len(shapes)], True if canon else "style"))
+    return out
+
+
 def mk(s, rule, stratum):
     return Case("c25\t" + hx(s), stratum, {"rule": rule, "s": s})
 
@@ -172,6 +196,8 @@ def mk(s, rule, stratum):
 def gen(tier, rng, boost=1):
     for s, rule in FIXED:
         yield mk(s, rule, "fixed")
+    for s, rule in attr_matrix():
+        yield mk(s, rule, "attr-matrix" if rule is True else "attr-matrix/style")
     n = (2500 if tier == "quick" else 40000) * boost
     for i in range(n):
         k = rng.random()
@@ -206,19 +232,28 @@ def judge(case, impl, asis, spec):
         # damaged texts: only "both accept or both reject" is compared (the texts that happen to be
         # accepted are outside the generator's grammar: lone combinators, digit element types …)
         return Verdict(r[0].startswith("ok:") == a[0].startswith("ok:"), None)
-    corr = r[0] == a[0] and r[1] == a[1] and (not rule or not r[0].startswith("ok:") or r[2] == a[2])
-    if len(r) > 3 and r[3].startswith("ok:") and r[0].startswith("ok:"):
+    acc = r[0].startswith("ok:")
+    full = rule is True
+    corr = r[0] == a[0] and r[1] == a[1] and (not full or not acc or (r[2] == a[2] and r[4] == a[3]))
+    if len(r) > 3 and r[3].startswith("ok:") and acc:
         t4 = dec(r[3])
         if t4.startswith("(") and t4.endswith(",)"):
             t4 = t4[1:-2]
         if t4 != dec(r[0]) and dec(r[0]) != "\x00null":
             corr = False     # the API route is not what inspect(selector-parse(..)) shows
     why = None
-    if r[0].startswith("ok:"):
+    if acc:
         if r[1] != r[0]:
             why = f"printed form `{dec(r[0])}` parses and prints as `{dec(r[1])}`"
-        elif rule and r[2] != r[0]:
+        elif full and r[2] != r[0]:
             why = f"`S {{x:y}}` emits `{dec(r[2])}`, selector.parse(S) prints `{dec(r[0])}`"
+        elif full and r[5] != r[0]:
+            why = (f"compressed style: `S {{x:y}}` emits `{dec(r[4])}`, which reads back as `{dec(r[5])}`; "
+                   f"selector.parse(S) is `{dec(r[0])}`")
+        elif rule and r[2].startswith("ok:") and r[5] != r[6]:
+            # the selector a rule emits must be the same selector list in both output styles
+            why = (f"`S {{x:y}}` emits `{dec(r[2])}` expanded but `{dec(r[4])}` compressed, which reads back as "
+                   f"`{dec(r[5])}`")
     return Verdict(corr, why)
 
 
